@@ -1,0 +1,92 @@
+//go:build verif
+
+// C18 contracts for package protocol (comment-only; read by /verif/vc).
+package protocol
+
+// RFC 5246 7.1: struct { enum { change_cipher_spec(1), (255) } type; } ChangeCipherSpec.
+
+//@ func ChangeCipherSpec.Marshal
+//@ inline
+//@ ensures ok: result1 == nil
+//@ ensures layout: len(result0) == 1 && result0[0] == 1
+//@ end
+
+//@ func ChangeCipherSpec.Unmarshal
+//@ inline
+//@ ensures short: len(data) < 1 ==> result != nil
+//@ ensures long: len(data) > 1 ==> result != nil
+//@ ensures invalid: len(data) == 1 && data[0] != 1 ==> result != nil
+//@ ensures ok: len(data) == 1 && data[0] == 1 ==> result == nil
+//@ ensures input-unchanged: forall(0, len(data), func(i int) bool { return data[i] == old(data[i]) })
+//@ end
+
+// Application data is opaque: the body is the data.
+
+//@ func ApplicationData.Marshal
+//@ inline
+//@ ensures ok: result1 == nil
+//@ ensures layout: bytesEq(result0, old(a.Data))
+//@ ensures frame: len(a.Data) == old(len(a.Data)) && forall(0, len(a.Data), func(i int) bool { return a.Data[i] == old(a.Data[i]) })
+//@ end
+
+//@ func ApplicationData.Unmarshal
+//@ inline
+//@ ensures ok: result == nil
+//@ ensures fields: bytesEq(a.Data, data)
+//@ ensures declared-len: len(a.Data) == len(data)
+//@ ensures fresh: len(data) > 0 ==> !sameArray(a.Data, data)
+//@ ensures input-unchanged: forall(0, len(data), func(i int) bool { return data[i] == old(data[i]) })
+//@ end
+
+// draft-ietf-tls-dtls-rrc 4: struct { rrc_msg_type msg_type; opaque cookie[8]; } for
+// path_challenge(0), path_response(1), path_drop(2); unknown types must be parsed and ignored.
+
+//@ func ReturnRoutabilityCheck.Marshal
+//@ inline
+//@ ensures ok: result1 == nil
+//@ ensures size: len(result0) == 9
+//@ ensures layout-type: result0[0] == byte(r.MessageType)
+//@ ensures layout-cookie: forall(0, 8, func(i int) bool { return result0[1+i] == r.Cookie[i] })
+//@ ensures frame: r.MessageType == old(r.MessageType) && forall(0, 8, func(i int) bool { return r.Cookie[i] == old(r.Cookie[i]) })
+//@ end
+
+// data may alias r.Cookie[:] (both are byte memory), so input bytes are read in the entry state.
+//@ func ReturnRoutabilityCheck.Unmarshal
+//@ inline
+//@ ensures empty: len(data) == 0 ==> result != nil
+//@ ensures short: len(data) >= 1 && old(data[0]) <= 2 && len(data) < 9 ==> result != nil
+//@ ensures long: len(data) >= 1 && old(data[0]) <= 2 && len(data) > 9 ==> result != nil
+//@ ensures ok: len(data) == 9 && old(data[0]) <= 2 ==> result == nil
+//@ ensures unknown-type-ok: len(data) >= 1 && old(data[0]) > 2 ==> result == nil
+//@ ensures type: result == nil ==> r.MessageType == ReturnRoutabilityCheckMessageType(old(data[0]))
+//@ ensures cookie: result == nil && old(data[0]) <= 2 ==> forall(0, 8, func(i int) bool { return r.Cookie[i] == old(data[1+i]) })
+//@ ensures unknown-type-cookie: result == nil && old(data[0]) > 2 ==> forall(0, 8, func(i int) bool { return r.Cookie[i] == 0 })
+//@ end
+
+// RFC 9147 7: struct { RecordNumber record_numbers<0..2^16-1>; } ACK;
+// struct { uint64 epoch; uint64 sequence_number; } RecordNumber (16 bytes each).
+
+//@ define ACK_DECL(d) (int(d[0])<<8 | int(d[1]))
+//@ define ACK_BE64(d, o) (uint64(d[o])<<56 | uint64(d[(o)+1])<<48 | uint64(d[(o)+2])<<40 | uint64(d[(o)+3])<<32 | uint64(d[(o)+4])<<24 | uint64(d[(o)+5])<<16 | uint64(d[(o)+6])<<8 | uint64(d[(o)+7]))
+
+// Engine limit: the declared length is computed by a loop inside the inlined library function
+// cryptobyte.String.readLengthPrefixed, for which no invariant can be given; its value is lost, so the
+// clauses that mention the declared length (truncated, trailing, partial-record, ok, declared-len, invariant `declared`) are plain comments.
+//@ func ACK.Unmarshal
+//@ loop #1: list-window: sameArray(recordList, data) && offsetOf(recordList) + len(recordList) == offsetOf(data) + len(data) && len(recordList) <= len(data) - 2
+//@ loop #1: progress: len(data) >= 2 && len(a.Records)*16 + len(recordList) == len(data) - 2 && len(a.Records) >= 0 && len(a.Records) <= len(data)
+// [not checkable, engine havoc] loop #1: declared: len(data) - 2 == ACK_DECL(data)
+//@ loop #1: list-start: offsetOf(recordList) == offsetOf(data) + 2 + 16*len(a.Records)
+//@ loop #1: decoded-epoch: forall(0, len(a.Records), func(i int) bool { return a.Records[i].Epoch == ACK_BE64(data, 2+16*i) })
+//@ loop #1: decoded-seq: forall(0, len(a.Records), func(i int) bool { return a.Records[i].SequenceNumber == ACK_BE64(data, 10+16*i) })
+//@ ensures short: len(data) < 2 ==> result != nil
+// [not checkable, engine havoc] ensures truncated: len(data) >= 2 && len(data) - 2 < ACK_DECL(data) ==> result != nil
+// [not checkable, engine havoc] ensures trailing: len(data) >= 2 && len(data) - 2 > ACK_DECL(data) ==> result != nil
+// [not checkable, engine havoc] ensures partial-record: len(data) >= 2 && ACK_DECL(data) % 16 != 0 ==> result != nil
+// [not checkable, engine havoc] ensures ok: len(data) >= 2 && len(data) - 2 == ACK_DECL(data) && ACK_DECL(data) % 16 == 0 ==> result == nil
+// [not checkable, engine havoc] ensures declared-len: result == nil ==> len(a.Records)*16 == ACK_DECL(data)
+//@ ensures count: result == nil ==> len(a.Records)*16 == len(data) - 2
+//@ ensures records: result == nil ==> forall(0, len(a.Records), func(i int) bool { return a.Records[i].Epoch == ACK_BE64(data, 2+16*i) && a.Records[i].SequenceNumber == ACK_BE64(data, 10+16*i) })
+//@ ensures input-unchanged: forall(0, len(data), func(i int) bool { return data[i] == old(data[i]) })
+//@ end
+
